@@ -8,25 +8,28 @@ import coqemit as E
 
 ID = "C13"
 LEVEL_TEXT = ("Coq theorems over an exact-rational model of the four from_gmat estimators and of the DenseCoancestryMatrix views/summaries: "
-              "molecular coancestry = twice the mean identity-by-state probability (haploid and diploid, phased alleles), kinship = coancestry/2, "
-              "symmetry, x'Gx >= 0 for every x as a weighted sum of squares (all four estimators, all sizes), labels carried, "
-              "taxa permutation/sub-selection commutes with the estimator for fixed reference frequencies (and is refuted for re-estimated ones), "
-              "max/min attained bounds, mean, and min_inbreeding = 1/1'G^-1 1 is the minimum of x'Gx over sum(x)=1 given a checked inverse; "
-              "the model is tied to the code by evaluating it inside Coq against the implementation's outputs (exact on dyadic grids, 2^-30 otherwise)")
+              "molecular coancestry = twice the mean identity-by-state probability (haploid and diploid; on an allele table and on the phased array as stored), "
+              "kinship = coancestry/2, matrices square and symmetric, x'Gx >= 0 for every x as a non-negatively weighted sum of squares (all four estimators, "
+              "all sizes), labels carried, taxa permutation/sub-selection/repetition commutes with the estimator for fixed reference frequencies (and provably "
+              "not for re-estimated ones), max/min attained bounds, mean, max_inbreeding = largest diagonal entry, checked two-sided inverse (also for the kinship "
+              "format), min_inbreeding = 1/1'G^-1 1 is the attained minimum of x'Gx over sum(x)=1, soundness of the LDL' eigenvalue-margin certificate, and "
+              "estimated reference frequencies always give a singular matrix (1'G1 = 0); the model is tied to the code by evaluating it inside Coq against the "
+              "implementation's outputs (exact on dyadic grids, 2^-30 otherwise) for every class, factory, format and argument form")
 LEVEL_NOTE = ("trusted: Coq kernel + vm_compute; numpy/BLAS float arithmetic is compared, not modelled: exact equality where every operation is exact "
               "(dyadic grids), else 2^-30 relative against the exact rational; square roots (Yang) are not modelled (rational closed form); "
-              "numpy.linalg.inv/eigvals compared only on matrices certified well-conditioned / with an exact LDL' margin; "
-              "theorems are about the Gallina model, the tie to the code is differential on generated inputs")
+              "numpy.linalg.inv/eigvals compared only on matrices certified well-conditioned / with an exact, proved-sound LDL' margin, and inside Coq only "
+              "up to 8 taxa (above that by the exact-fraction predicate); theorems are about the Gallina model, the tie to the code is differential on generated inputs")
 TECHNIQUE = "Coq proof over an exact-rational executable model; in-Coq vm_compute correspondence with the implementation"
 PROPS = "Props/C13.v"
 IMPORTS = "From PV Require Import Lib.Common Model.C13_Coanc.\nImport String.\nLocal Open Scope Q_scope."
 SHARD = 12
-RULE = ("case = (estimator mol|vr|yang|gw, class or factory, phased|unphased, ploidy, allele matrix, labels or none, reference-frequency argument "
+RULE = ("case = (estimator mol|vr|yang|gw, class or factory, phased|unphased, ploidy 1..4, allele matrix, labels or none, reference-frequency argument "
         "none|scalar|array, marker-weight argument none|scalar|array, taxa index list (permutation / subset / with repeats), accessor index pair, "
-        "eigenvalue tolerance); one PRNG; n in 1..10 (thorough ..16), markers 0..12 (thorough ..24) with powers of two over-represented (exact regime), "
-        "columns forced fixed-0 / fixed-max / heterozygous / polymorphic, duplicated taxa, frequencies on dyadic grids, arbitrary floats, "
-        "endpoints 0 and 1, out-of-range and wrong-length arguments; non-trivial = n >= 2, at least one polymorphic marker, finite result; "
-        "distinct by SHA-256 of the case")
+        "eigenvalue tolerance); one PRNG; a fixed sweep (every estimator x phased/unphased x ploidy 1,2 x six tiny shapes, plus indefinite matrices from "
+        "negative ndarray weights) then random cases: n in 1..10 (thorough ..16), markers 0..12 (thorough ..32) with powers of two over-represented "
+        "(exact regime), columns forced fixed-0 / fixed-max / heterozygous / polymorphic, duplicated taxa, frequencies on dyadic grids, 20-bit dyadics and "
+        "arbitrary binary64 values (rounding regime), endpoints 0 and 1, Integral scalars, out-of-range and wrong-length arguments, unsupported ploidy; "
+        "non-trivial = n >= 2, at least one polymorphic marker, finite result; distinct by SHA-256 of the case")
 TRUSTED = ["BLAS matrix products / numpy reductions: compared exactly on dyadic grids (every partial sum representable), else within 2^-30 of the exact rational",
            "numpy.linalg.inv and eigvals are compared only where the exact inverse (checked G*H = I in Q) is well-conditioned "
            "(n*max|G|*max|H| <= 1000) and where an exact LDL' certificate puts the smallest eigenvalue clear of the threshold",
